@@ -24,13 +24,15 @@ for _p in []:
 
 CHECKS = {
   'C05': dict(
-    engine='kx',
-    technique='Kani bounded function-contract harnesses on the real tracing dispatch (per-kind bodies stubbed by flags) and the real Allocator sweep (ObjectHandle::drop and ObjectRef::trace stubbed by their contracts)',
-    design_ref='DESIGN.md §4 C05, §10, §13',
-    level_text=('Bounded checks only, never counted as proved: for 12 of the 13 object kinds the real `impl Trace for ObjectRef` sends an unmarked object to exactly its own kind\'s trace body once and does nothing for a marked one; '
-                'on the real Allocator with one object, a full or nursery collection retains exactly the rooted object, leaves it intact, clears its mark (a later unrooted full collection frees it), and temporary roots survive. '
-                'Per-kind trace bodies (does Method::trace reach its receiver, ...) are NOT decided: CBMC loses pointer provenance through the Value enum (documented tool limit), and the VM/compiler root sets are outside reach.'),
-    level_note=('category other: every obligation is a bounded Kani harness. A-stub: the stubs state no more than what the stubbed function\'s own check establishes. Not decided: O-05.1, root sets of Vm/Compiler/Fiber, natives\' push_root discipline, output equality across schedules.'),
+    engine='vx',
+    technique='Verus contracts GENERATED from the real struct definitions on the real trace bodies (ghost trace log threaded through, R15), hand-written contracts on the mark-guarded handles and the kind dispatch; Kani bounded function-contract harnesses on the real dispatch and the real Allocator sweep',
+    design_ref='DESIGN.md §4 C05, §10.4, §13',
+    level_text=('Unbounded proof (Verus) on the extracted real functions: each of the 26 field-wise `trace` bodies (LyBox, Method, Closure, Channel, ChannelQueue, Native, NativeMeta, Class, instance Header, Instance, List, Tuple, Map, Fun, FunBuilder, Enumerator, Chunk, Module, Package, Import, Captures, Parameter, NativeSignature, UniqueVector, CallFrame, Fiber) '
+                'issues a trace for EVERY field whose type can hold a GC reference — the obligation is regenerated from the struct definition on every run, so a new untraced field fails as well as a dropped call; '
+                'ObjRef / Ref / Array / RawUniqueVector / RawSharedVector trace header and elements of an object met for the first time and follow list forwarding; ObjectRef::trace sends each of the 13 kinds to its own kind. '
+                'Bounded (Kani): the real dispatch per kind and the real Allocator sweep with one object (rooted object retained intact, mark cleared, temporary roots survive).'),
+    level_note=('Trusted: the model of field types (Leaf / KvLeaf / Plain classification table in vx/units/gctrace/unit.py; an unclassified type is UNDECIDED), R15 rewrites of for / for_each loops into one stub call with flags, A-alias (Class.init). '
+                'NOT decided: root sets of Vm/Compiler/Fiber stack slices, natives\' push_root discipline, the whole-heap tri-colour induction, output equality across schedules.'),
   ),
   'C09': dict(
     engine='vx',
